@@ -205,6 +205,24 @@ def run_falsifier(ctx, check_types):
         if hit:
             hit.update({"input": inputs, "job": job, "cmps": [stages.enc_cmp(c) for c in cmps]})
             yield hit
+    # labels must not survive from one generator object to the next: generations with and without transliteration alternate
+    # (short-lived generator objects; CPython reuses their addresses)
+    for attempt in range(ctx.n(12, 60)):
+        k = rng.choice(["café", "naïve", "über", "señor"])
+        plain = "".join(c for c in __import__("unicodedata").normalize("NFKD", k) if ord(c) < 128)
+        warm = [("Root", [{k: 1, "n%d" % j: {"v": j}} for j in range(attempt % 5 + 1)])]
+        j1 = {"fw": "pydantic", "layout": "flat", "maxLit": 10, "postInit": False, "convertUnicode": True, "meta": False, "preamble": None}
+        j2 = dict(j1, convertUnicode=False)
+        try:
+            real.run_library(warm, registry, [], j1)
+            hit, skip = check_case([("Root", [{k: 1, plain: 2}])], [], j2, registry, check_types)
+        except Exception as e:  # noqa
+            hit, skip = {"kind": "pipeline-raises", "observed": f"{type(e).__name__}: {e}"}, None
+        ctx.case(("label-cache", k, attempt), nontrivial=True)
+        if hit and not skip:
+            hit.update({"input": [("Root", [{k: 1, plain: 2}])], "job": j2, "cmps": [], "after": {"input": warm, "job": j1}})
+            yield hit
+            break
     # out-of-domain stream: the findings the property text itself lists
     for kid, inputs, job in KNOWN_INPUTS:
         try:
@@ -232,6 +250,17 @@ def falsify(ctx):
 
 def replay(ctx, hit):
     from ..worker import cmps_from
+    if hit.get("after"):
+        # the failing generation came after another one in the same process: repeat the pair a few times
+        for _ in range(40):
+            try:
+                real.run_library([tuple(x) for x in hit["after"]["input"]], stages.make_registry(), [], hit["after"]["job"])
+                h, _ = check_case([tuple(x) for x in hit["input"]], [], hit["job"], stages.make_registry(), CHECK_TYPES)
+            except Exception as e:  # noqa
+                h = {"kind": "pipeline-raises", "observed": f"{type(e).__name__}: {e}"}
+            if h:
+                return h
+        return None
     try:
         h, _ = check_case([tuple(x) for x in hit["input"]], cmps_from(hit["cmps"]), hit["job"], stages.make_registry(),
                           CHECK_TYPES)
